@@ -1061,6 +1061,18 @@ class Stream:
         self.items = list(items)
         self.i = 0
         self.log = []
+        self.lost = False          # the reader moved to a position the evaluator does not follow: nothing read afterwards is decided
+        # the quantities a byte count may be made of when it is compared with what the writer packed: whatever the writer's items mention
+        self.known = set()
+        for it in self.items:
+            for v in (it.count, it.value):
+                if is_rat(v):
+                    self.known |= set(v.n.atoms()) | set(v.d.atoms())
+
+    def _resolved(self, n):
+        """is the byte count made of quantities of the written records only (constants, lengths and header values the writer packed)?  A count
+        that mentions anything else (an attribute nothing assigned, an opaque call) is not decided against the records: Unknown, never Bad"""
+        return (set(n.n.atoms()) | set(n.d.atoms())) <= self.known
 
     def left(self):
         return self.items[self.i:]
@@ -1069,6 +1081,10 @@ class Stream:
         """n: Rat number of bytes -> BytesV or Bad / Unknown"""
         if not is_rat(n):
             return Unknown("read of an unknown number of bytes")
+        if self.lost:
+            return Unknown("read after a seek the evaluator does not follow")
+        if not n.is_const() and not self._resolved(n):
+            return Unknown(f"read({n!r}): the byte count is not a function of the written records")
         got = []
         need_ = n
         while True:
